@@ -24,7 +24,7 @@ import (
 	"strings"
 
 	"github.com/beevik/etree"
-	"golang.org/x/crypto/ripemd160"
+	ripemd160 "verif/engine/xenc/rmd160"
 )
 
 // Algorithm identifiers.
